@@ -171,6 +171,7 @@ impl Emit<'_> {
     fn mappings(&mut self, nsrc: u32, nnames: u32, allow_bad: bool) -> (String, Vec<Vec<bool>>) {
         let rng = &mut *self.rng;
         let nlines = rng.small(6);
+        let allow_extreme = rng.chance(1, 3);
         let mut out = String::new();
         let mut ranges = Vec::new();
         let (mut src, mut sl, mut sc, mut nm) = (0i64, 0i64, 0i64, 0i64);
@@ -186,8 +187,15 @@ impl Emit<'_> {
                     out.push(',');
                 }
                 let ncol = if s == 0 { rng.below(6) as i64 } else { col + rng.below(8) as i64 };
-                vlq(&mut out, ncol - col);
-                col = ncol;
+                if allow_extreme && rng.chance(1, 30) {
+                    // legal but unusual: a column delta so large that the 32-bit running column wraps
+                    let d = *rng.pick(&[(1i64 << 32) - 1, (1 << 32) - 3, 1 << 31, (1 << 32) + 2, -(1i64 << 31)]);
+                    vlq(&mut out, d);
+                    col = (col + d).rem_euclid(1 << 32);
+                } else {
+                    vlq(&mut out, ncol - col);
+                    col = ncol;
+                }
                 let fields = if nsrc == 0 { 1 } else { *rng.pick(&[1u8, 4, 4, 4, 5, 5]) };
                 if fields >= 4 {
                     let nsrc_id = rng.below(nsrc as u64) as i64;
